@@ -252,6 +252,87 @@ func slashLoop(run *evid.Run, r *rand.Rand, kind string, env *Env, histories, st
 				}
 				run.Count("restarts", 1)
 				hist = append(hist, stepRec{Step: s, Kind: "restart"})
+			case p < restartPct+5:
+				// Side channel: the generic endpoints are asked to sign the root of a slashable message under the
+				// slashable domain, alone or hidden in a multisign batch among harmless entries.  Whatever signature
+				// comes back is attributed by verification and, if it is a valid attestation / proposal signature,
+				// joins the released set like any other.
+				n := 1 + r.Intn(6)
+				gs := make([]*GenCase, n)
+				type hidden struct {
+					att  *AttCase
+					prop *PropCase
+				}
+				hid := make([]hidden, n)
+				rec := stepRec{Step: s, Kind: "generic", Via: viaName(via)}
+				for i := range gs {
+					ki := r.Intn(len(env.Keys))
+					g := &GenCase{Key: env.Keys[ki], Name: env.Names[ki], Addr: RandAddr(r), Data: &rules.SignData{Domain: Dom([]byte{9, 0, 0, 0}, 1), Data: Root32(byte(r.Intn(256)))}}
+					if r.Intn(2) == 0 {
+						if kind == "att" {
+							a := genAtt(r, env, roots, doms, ki)
+							root := a.DataRoot()
+							g.Data = &rules.SignData{Domain: a.Data.Domain, Data: root[:]}
+							g.Addr = a.Addr
+							hid[i].att = a
+							rec.Entries = append(rec.Entries, "generic over "+descAtt(a))
+						} else {
+							pc := genProp(r, env, roots, doms)
+							root := pc.DataRoot()
+							g.Key, g.Name, g.Addr = pc.Key, pc.Name, pc.Addr
+							g.Data = &rules.SignData{Domain: pc.Data.Domain, Data: root[:]}
+							hid[i].prop = pc
+							rec.Entries = append(rec.Entries, "generic over "+descProp(pc))
+						}
+					} else {
+						rec.Entries = append(rec.Entries, fmt.Sprintf("generic harmless key%d", g.Key.Index))
+					}
+					gs[i] = g
+				}
+				var res []core.Result
+				var sigs [][]byte
+				if n == 1 {
+					r1, s1 := env.SignGen(via, gs[0])
+					res, sigs = []core.Result{r1}, [][]byte{s1}
+				} else {
+					res, sigs = env.SignGens(via, gs)
+				}
+				for i := range res {
+					rec.Results = append(rec.Results, res[i].String())
+					run.Eval(1)
+					run.Count("generic_side_channel_entries", 1)
+					if i >= len(sigs) || len(sigs[i]) == 0 || i >= n {
+						continue
+					}
+					// Which (key, hidden message) of the batch does the signature verify for?
+					for _, kc := range gs {
+						for j := range gs {
+							if hid[j].att == nil && hid[j].prop == nil {
+								continue
+							}
+							root := gs[j].SigningRoot()
+							if ok, _ := oracle.VerifySig(kc.Key.Pub, root[:], sigs[i]); !ok {
+								continue
+							}
+							run.Count("generic_released_slashable_type", 1)
+							w := map[string]any{"history_so_far": append(append([]stepRec{}, hist...), rec)}
+							if a := hid[j].att; a != nil {
+								if why := env.Slash.AddAtt(kc.Key.Pub48(), a.Data.Source.Epoch, a.Data.Target.Epoch, a.DataRoot()); why != "" {
+									run.Violate("slashable attestation released through the generic endpoint: "+why, w)
+								}
+							} else if pc := hid[j].prop; pc != nil {
+								if why := env.Slash.AddProp(kc.Key.Pub48(), pc.Data.Slot, pc.DataRoot()); why != "" {
+									run.Violate("slashable proposal released through the generic endpoint: "+why, w)
+								}
+								if wk := &wm[keyIdx(env, kc.Key)]; wk.HasProp && pc.Data.Slot <= wk.MaxSlot {
+									run.Violate(fmt.Sprintf("proposal at slot %d signed through the generic endpoint after slot %d", pc.Data.Slot, wk.MaxSlot), w)
+								}
+							}
+						}
+					}
+				}
+				run.Distinct(fmt.Sprintf("generic side channel n=%d via=%s", n, viaName(via)))
+				hist = append(hist, rec)
 			case kind == "att" && p < 40:
 				n := 2 + r.Intn(5)
 				cs := make([]*AttCase, n)
